@@ -97,13 +97,29 @@ Fixpoint order_ok (gi : graph) (seen : list key) (evs : list tevent) : bool :=
                  negb (existsb (fun s => edge_between gi k s) seen) && order_ok gi (k :: seen) rest
   end.
 
+(* eager instances: the steps of one run (between two run markers) are merged; runs of the same instance
+   never overlap in time *)
+Fixpoint split_runs (steps : list (list tevent)) (cur : list tevent) : list (list tevent) :=
+  match steps with
+  | [] => [cur]
+  | [] :: rest => cur :: split_runs rest []
+  | st :: rest => split_runs rest (cur ++ st)
+  end.
+
+Fixpoint seg_runs (gi : graph) (golog : list tevent) (runs : list (list tevent)) : bool :=
+  match runs with
+  | [] => match golog with [] => true | _ => false end
+  | r :: rest => let n := List.length r in
+                 perm_evs (firstn n golog) r && order_ok gi [] (firstn n golog) && seg_runs gi (skipn n golog) rest
+  end.
+
 Definition instance_ok (F : forest) (g : graph) (mlog : log value) (golog : list tevent) (p : path) : bool :=
   match graph_at F g p with
   | None => false
   | Some gi =>
     let steps := model_steps_at F g p mlog in
     let evs := events_at p golog in
-    if g_eager gi then perm_evs evs (List.concat steps) && order_ok gi [] evs
+    if g_eager gi then seg_runs gi evs (split_runs steps [])
     else seg_ok evs steps
   end.
 
